@@ -16,6 +16,7 @@ var dummyCancelFunc = func() {}
 var (
 	letterRunes    = []rune("1234567890abcdefghijklmnopqrstuvwxyzABCDEFGHIJKLMNOPQRSTUVWXYZ")
 	randForLock    *rand.Rand
+	randForLockMtx sync.Mutex
 	getRandForLock sync.Once
 )
 
@@ -26,11 +27,16 @@ func randStrForLock() *rand.Rand {
 	return randForLock
 }
 
+// RandomString is called from the goroutines that evaluate records in parallel (names of inline tables) as well
+// as for lock files, and a rand.Rand is not safe for concurrent use.
 func RandomString(length int) string {
 	r := make([]rune, length)
+	rnd := randStrForLock()
+	randForLockMtx.Lock()
 	for i := 0; i < length; i++ {
-		r[i] = letterRunes[randStrForLock().Intn(len(letterRunes))]
+		r[i] = letterRunes[rnd.Intn(len(letterRunes))]
 	}
+	randForLockMtx.Unlock()
 	return string(r)
 }
 
